@@ -112,7 +112,7 @@ func runC15(r *R) {
 	}
 
 	// ---- R3
-	r.Rule("C15-R3", "StateShutdown is stored only in worker.shutdown, which always starts instance.Destroy(); Pool.sync re-shuts-down after timeoutShutdown and deletes+closes vanished workers", 4)
+	r.Rule("C15-R3", "StateShutdown is stored only in worker.shutdown, which always starts instance.Destroy(); Pool.sync re-shuts-down after timeoutShutdown and deletes+closes vanished workers", 2)
 	shutConst := stateConst(w, "StateShutdown")
 	for _, fn := range w.FuncsIn(wk) {
 		for _, st := range StoresToField(fn, wk+".worker", "state") {
@@ -237,7 +237,7 @@ func runC15(r *R) {
 	}
 
 	// ---- R5
-	r.Rule("C15-R5", "fixStaleLocks: only Locked containers not in Running() are collected, and every collected UUID is unlocked", 2)
+	r.Rule("C15-R5", "fixStaleLocks: only Locked containers not in Running() are collected, and every collected UUID is unlocked", 1)
 	if fn := r.NeedFn("C15-R5", "(*"+sc+".Scheduler).fixStaleLocks"); fn != nil {
 		for _, c := range CallsIn(fn, "builtin.append") {
 			g1, _ := Guard(fn, nil, c.(ssa.Instruction), EqC("State == Locked", CanonHas("Container.State"), ConstStrVP("Locked")))
